@@ -126,8 +126,24 @@ def materialise(d, texts, layout, app, pre_out):
     return p
 
 
-def argv_for(app, layout, p, strategy, explicit=True, with_pathname=True, with_out=True):
-    flags = flags_for(strategy, explicit)
+IGNORE_FLAGS = {'-S': 'sources', '-O': 'outputs', '-A': 'attachments', '-M': 'metadata', '-I': 'identifier', '-D': 'details'}
+
+
+@contextlib.contextmanager
+def ignore_options(ignore):
+    "the diff-ignore options of a command line in force for a library call (and reset afterwards, whatever happened)"
+    from nbdime.diffing import notebooks as nbd
+    nbd.reset_notebook_differ()
+    try:
+        if ignore:
+            nbd.set_notebook_diff_targets(**{IGNORE_FLAGS[f]: False for f in ignore})
+        yield
+    finally:
+        nbd.reset_notebook_differ()
+
+
+def argv_for(app, layout, p, strategy, explicit=True, with_pathname=True, with_out=True, ignore=()):
+    flags = flags_for(strategy, explicit) + list(ignore)
     if app == 'driver':
         a = ['merge'] + flags + [p['base'], p['local'], p['remote'], '7']
         if with_pathname:
@@ -212,14 +228,15 @@ class LibResult:
         return normalise(nb, self.noid) == self.norm
 
 
-def library_merge(B, L, R, strategy):
+def library_merge(B, L, R, strategy, ignore=()):
     """-> LibResult; None if the library merge itself raises (C03's business); 'unserialisable' if its result cannot
     be written by nbformat at all (schema-breaking results such as a dict-valued cell id are C04's business)"""
     import copy
     from bounded import mergespace
     from nbdime.merging import merge_notebooks
     try:
-        merged, decisions = merge_notebooks(copy.deepcopy(B), copy.deepcopy(L), copy.deepcopy(R), mergespace.args_for(*strategy))
+        with ignore_options(ignore):
+            merged, decisions = merge_notebooks(copy.deepcopy(B), copy.deepcopy(L), copy.deepcopy(R), mergespace.args_for(*strategy))
     except Exception:
         return None
     try:
@@ -229,12 +246,13 @@ def library_merge(B, L, R, strategy):
 
 
 class Expect:
-    def __init__(self, p, strategy):
+    def __init__(self, p, strategy, ignore=()):
         self.B = fresh_read(p['base'], empty_ok=True)
         self.L = fresh_read(p['local'])
         self.R = fresh_read(p['remote'])
         self.strategy = strategy
-        self.main = library_merge(self.B, self.L, self.R, strategy)
+        self.ignore = tuple(ignore)
+        self.main = library_merge(self.B, self.L, self.R, strategy, self.ignore)
 
     def ignored_input(self, got_nb):
         """which input would have to be ignored for the library merge to give the notebook `got_nb` (or None)"""
@@ -242,7 +260,7 @@ class Expect:
         alts = [('remote', (self.B, self.L, self.L)), ('local', (self.B, self.R, self.R)),
                 ('base', (nbformat.v4.new_notebook(), self.L, self.R))]
         for which, (b, l, r) in alts:
-            res = library_merge(b, l, r, self.strategy)
+            res = library_merge(b, l, r, self.strategy, self.ignore)
             if isinstance(res, LibResult) and res.same(got_nb):
                 return which
         return None
